@@ -128,7 +128,15 @@ def gen_cases(tier):
 
 def subs(tier, only=None):
     from ..engine import fast_tracebacks
+    from . import c14
     fast_tracebacks()
-    return [Sub('delete', gen_cases(tier), run_case,
-                rule='case = (spine kinds, leaf, path segments, spelling, ignore_missing, function|spec form); compared with plain `del` on a copy',
-                min_nontrivial=5000, min_outcomes=6, required_tags=SPELLINGS + MR.KINDS + ['func', 'spec'])]
+    out = []
+    if only in (None, 'delete'):
+        out.append(Sub('delete', gen_cases(tier), run_case,
+                       rule='case = (spine kinds, leaf, path segments, spelling, ignore_missing, function|spec form); compared with plain `del` on a copy',
+                       min_nontrivial=5000, min_outcomes=6, required_tags=SPELLINGS + MR.KINDS + ['func', 'spec']))
+    if only in (None, 'wildcard-delete'):
+        out.append(Sub('wildcard-delete', [c for c in c14.gen_mutate(tier) if c[2] == 'delete'], c14.run_mutate,
+                       rule='case = (tree-shaped target, path with 1-4 wildcards, function|spec form): deletion at every match against a plain loop (shared with C14)',
+                       min_nontrivial=10, min_outcomes=2))
+    return out
